@@ -8,7 +8,7 @@
      cond(c, a, b) | tuple(items) | obj(keys, vals) | index(e, key) | attr(e, name) | splat(e, name)
      fort(v, coll, body, cnd)            [for v in coll : body if cnd]        (cnd = [k |-> "none"] when absent)
      foro(kv, vv, coll, key, val, cnd, grp)   {for kv, vv in coll : key => val... if cnd}
-     str parts:  lit(s) | interp(e, sl, sr) | tif(c, then, else, marks) | tfor(v, coll, body, marks)
+     str parts:  lit(s) | interp(e, sl, sr) | tif(c, then, else, marks) | tfor(kv, v, coll, body, marks)
    Values:  [t "num", n, d] (normalised fraction)  [t "bool", v]  [t "str", v: sequence of characters]
             [t "null"]  [t "tuple", v: sequence]  [t "obj", v: sequence of <<key, value>> in key order]
             [t "err"] (an error diagnostic)  [t "unspec"] (outside what this module defines: not compared)
@@ -273,7 +273,7 @@ Cat(parts, env) ==
                     [] p.k = "tfor" -> LET c == Eval(p.coll, env) IN
                                        IF Bad(c) THEN c ELSE IF c.t \notin {"tuple", "obj"} THEN Err
                                        ELSE LET els == Elems(c)
-                                                rs == [i \in 1..Len(els) |-> Cat(p.body, Bind(env, p.v, els[i][2]))]
+                                                rs == [i \in 1..Len(els) |-> Cat(p.body, IF p.kv = "" THEN Bind(env, p.v, els[i][2]) ELSE Bind(Bind(env, p.kv, els[i][1]), p.v, els[i][2]))]
                                             IN IF \E i \in 1..Len(rs) : IsErr(rs[i]) THEN Err ELSE IF AnyBad(rs) THEN Unspec
                                                ELSE Str(FlattenSeq([i \in 1..Len(rs) |-> rs[i].v]))
            rest == Cat(Tail(parts), env)
